@@ -272,6 +272,21 @@ impl Prop for Unix {
                 let n = 86400 * days_from_civil(d.year(), d.m as i64, d.d as i64);
                 n_for_class = Some(n);
                 expect_raw(&mut acc, &last, n, "date as unix");
+                // the same date held in a name bound on an earlier line (also after `to <zone>` re-zoned it): midnight UTC of that date
+                if acc.ok() {
+                    let mut def = Line::default();
+                    def.push(Tok::word("d", Class::Var));
+                    def.push(Tok::op('='));
+                    for t in d.toks("en") {
+                        def.push(t);
+                    }
+                    let text2 = format!("{}\nd as unix", def.render(",", "."));
+                    match w.eval(&cfg, "en", &text2) {
+                        Ok(o) if o.slots.len() == 2 => expect_raw(&mut acc, &o.slots[1], n, "date held in a variable, as unix"),
+                        Ok(o) => acc.fail(format!("{} slots for two lines", o.slots.len())),
+                        Err(p) => acc.fail(format!("panic at {}: {}", p.site, p.message)),
+                    }
+                }
             }
             Shape::TimeAsUnix(t, zn, _, _) => {
                 kind = "time-as-unix";
